@@ -256,6 +256,9 @@ class Verifier:
                     traceback.format_exc().splitlines()[-3].strip()
             if ended and ctx.sat_now() != z3.unsat:
                 res.covered += 1
+                # every call by contract this path went through has a feasible continuation
+                for cid in getattr(it, 'calls_passed', ()):
+                    it.used.add(f'<call-ok> {cid}')
             for ob in ctx.obligations:
                 ce = None
                 if ob.status == 'failed' and ob.model is not None:
@@ -413,6 +416,8 @@ class Verifier:
             else:
                 e = outcome
                 key = f'raise {e.cls.__name__}'
+                if os.environ.get('PYVC_EXIT_LINES'):
+                    key += f' @{ctx.where} {e.args[:1]}'
                 res.exits[key] = res.exits.get(key, 0) + 1
                 decl = None
                 for exc in c.raises:
